@@ -8,6 +8,7 @@ import (
 	"os"
 	"os/exec"
 	"path/filepath"
+	"regexp"
 	"sort"
 	"strings"
 	"sync"
@@ -43,9 +44,10 @@ func solverCmd(name string, budgetMs int) solverSpec {
 		sd := name[len(name)-1:]
 		return solverSpec{"z3-4.8.12", []string{"z3", "-in", "-smt2", wall, fmt.Sprintf("rlimit=%d", budgetMs*6700), "smt.random_seed=" + sd, "sat.random_seed=" + sd}}
 	case "z3-new":
-		return solverSpec{"z3-5.1.0", []string{"z3-new", "-in", "-smt2", wall, fmt.Sprintf("rlimit=%d", budgetMs*2500)}}
+		// z3 5.1 spends long stretches without touching its resource counter: its wall limit is kept tight (3x)
+		return solverSpec{"z3-5.1.0", []string{"z3-new", "-in", "-smt2", fmt.Sprintf("-t:%d", budgetMs*3), fmt.Sprintf("rlimit=%d", budgetMs*2500)}}
 	case "cvc5":
-		return solverSpec{"cvc5-1.0.3", []string{"cvc5", "--lang=smt2", fmt.Sprintf("--tlimit=%d", budgetMs*loadFactor), "-"}}
+		return solverSpec{"cvc5-1.0.3", []string{"cvc5", "--lang=smt2", fmt.Sprintf("--tlimit=%d", budgetMs*2), "-"}}
 	}
 	panic("unknown solver " + name)
 }
@@ -125,6 +127,13 @@ func (x *Exec) solveAll(obls []*Obligation, opts SolveOpts) []*CheckResult {
 	jobs := make(chan job)
 	var wg sync.WaitGroup
 	cache := map[[20]byte]*CheckResult{}
+	failedObl := map[string]bool{}
+	failFast := os.Getenv("GOVC_FAILFAST") != "" // bulk runs over mutants: the first failed obligation settles the verdict
+	failedIgnored := map[string]bool{}
+	var failFastIgnore *regexp.Regexp // obligations known to fail on the unchanged tree do not settle anything
+	if v := os.Getenv("GOVC_FAILFAST_IGNORE"); v != "" {
+		failFastIgnore = regexp.MustCompile(v)
+	}
 	var mu sync.Mutex
 	for w := 0; w < opts.Workers; w++ {
 		wg.Add(1)
@@ -144,9 +153,45 @@ func (x *Exec) solveAll(obls []*Obligation, opts SolveOpts) []*CheckResult {
 					continue
 				}
 				mu.Unlock()
-				r := x.solveOne(o, q, opts)
+				// quick tier: one refuted / undecided path is enough to fail an obligation; its other paths are not tried
+				if opts.Tier != "thorough" && o.Kind != "cover" {
+					mu.Lock()
+					skip := failedObl[o.FullName()] || failedIgnored[o.FullName()] || (failFast && len(failedObl) > 0)
+					mu.Unlock()
+					if skip {
+						results[j.i] = &CheckResult{Obl: o, Status: "skipped", Query: q, Output: "not tried: another path of this obligation already failed"}
+						continue
+					}
+				}
+				// optional on-disk cache (development aid for bulk runs over many mutants; the registered checks do not set it):
+				// queries are canonical and budgets deterministic, so the verdict of a query text is a fixed fact
+				var r *CheckResult
+				cdir := os.Getenv("GOVC_CACHE")
+				cfile := ""
+				if cdir != "" && !o.Synt {
+					cfile = filepath.Join(cdir, fmt.Sprintf("%x-%s", h, opts.Tier))
+					if b, err := os.ReadFile(cfile); err == nil {
+						f := strings.SplitN(strings.TrimSpace(string(b)), " ", 2)
+						if len(f) == 2 {
+							r = &CheckResult{Obl: o, Status: f[0], Backend: f[1], Query: q, Output: "(cached verdict)"}
+						}
+					}
+				}
+				if r == nil {
+					r = x.solveOne(o, q, opts)
+					if cfile != "" && (r.Status == "unsat" || r.Status == "sat" || r.Status == "unknown" || r.Status == "timeout") {
+						os.WriteFile(cfile, []byte(r.Status+" "+r.Backend+"\n"), 0o644)
+					}
+				}
 				mu.Lock()
 				cache[h] = r
+				if r.Status != "unsat" && o.Kind != "cover" {
+					if failFastIgnore != nil && failFastIgnore.MatchString(o.FullName()) {
+						failedIgnored[o.FullName()] = true
+					} else {
+						failedObl[o.FullName()] = true
+					}
+				}
 				mu.Unlock()
 				results[j.i] = r
 			}
@@ -201,11 +246,23 @@ func (x *Exec) solveOne(o *Obligation, q string, opts SolveOpts) *CheckResult {
 	}
 	cctx, cancel := context.WithCancel(ctx)
 	racers := []string{"z3-new", "cvc5", "z3-seed2", "z3-seed5"}
+	if opts.Tier == "thorough" && st == "unsat" {
+		// already proved: the other two solvers are consulted as a cross-check (a `sat` from either is a disagreement)
+		racers = []string{"z3-new", "cvc5"}
+	}
 	ch := make(chan r2, len(racers))
 	for _, s := range racers {
 		go func(s string) {
-			sp := solverCmd(s, opts.SecondMs)
-			st, out, ms := runSolver(cctx, sp, q, opts.SecondMs*loadFactor+5000)
+			budget := opts.SecondMs
+			if opts.Tier == "thorough" && st == "unsat" {
+				budget = opts.FirstMs
+			}
+			if s == "z3-new" && opts.Tier != "thorough" {
+				// on this code base z3 5.1 proves a goal within a fraction of a second or not at all
+				budget = opts.FirstMs * 2
+			}
+			sp := solverCmd(s, budget)
+			st, out, ms := runSolver(cctx, sp, q, budget*loadFactor+5000)
 			ch <- r2{st, out, sp.name, ms}
 		}(s)
 	}
@@ -309,7 +366,7 @@ func summarize(rs []*CheckResult) []*OblSummary {
 			if !found {
 				s.Backends = append(s.Backends, r.Backend)
 			}
-		} else {
+		} else if r.Status != "skipped" {
 			s.Failed = append(s.Failed, r)
 		}
 	}
@@ -324,6 +381,8 @@ func summarize(rs []*CheckResult) []*OblSummary {
 			}
 		} else if s.Proved == s.Checks {
 			s.Status = "discharged"
+		} else if len(s.Failed) == 0 {
+			s.Status = "SKIPPED" // bulk (fail-fast) runs only: not tried because another obligation had already failed
 		} else {
 			s.Status = "FAILED"
 		}
